@@ -13,8 +13,9 @@ inline std::map<std::string, std::vector<Factory>> &registry() {
 template <class G> struct Registrar {
     explicit Registrar(const char *group) {
         registry()[group].push_back([] { return std::unique_ptr<IObj>(new Obj<G>()); });
-        // the weighted classes are also run with inexactly representable weights
-        if (GInfo<G>::kind == KindTag::Weighted)
+        // the weighted classes are also run with inexactly representable weights, the
+        // multigraphs with multiplicities in units of 2^30 (sums cross 2^31 and 2^32)
+        if (GInfo<G>::kind == KindTag::Weighted || GInfo<G>::kind == KindTag::Multi)
             registry()[group].push_back([] {
                 auto *o = new Obj<G>();
                 o->variant = 1;
